@@ -5,6 +5,10 @@ from . import rules_buffer as B
 from . import rules_conserve as CV
 from . import rules_struct as S
 from . import rules_roles as RO
+from . import rules_pos as PO
+from . import rules_iso as ISO
+from . import rules_args as AR
+from . import rules_tree as TR
 
 PROPS = {}
 
@@ -153,3 +157,85 @@ prop('C02',
      'bracket arguments; R02.b an item body stops without consuming at \\item, \\end and a closing brace; R12.d / '
      'R09.e groups open only on a brace outside argument position and close only on their own kind.',
      'everything value-level: names, nesting and argument contents exactly as written.')
+
+
+prop('C13',
+     [T.r19_a, T.r19_e, PO.r13_b, PO.r13_c, PO.r13_d],
+     'Provenance of positions from the categoriser to the node constructors: the tokenizer abstract interpretation '
+     'gives the provenance of every token position; a symbolic (affine) evaluation of the position argument of every '
+     'Token built by the Token arithmetic methods; the conservation engine records, for every node the reader builds, '
+     'which token its position comes from; a def-use rule on the regex search.',
+     'R19.a each character gets its own enumerate index; R19.e a token\'s position is that of its first consumed '
+     'character; R13.b concatenation/prefixing/join/iteration/indexing/stripping keep positions true; R13.c every node '
+     'gets the position of the first token consumed for it; R13.d a regex match is reported at leaf position + match '
+     'start.',
+     'the line/column arithmetic of char_pos_to_line (value-level; while reading the code the offset of a line feed '
+     'was seen to map to (next line, -1), which no static rule here reaches).')
+
+prop('C14',
+     [TR.r14_a, TR.r14_b, AR.r18_d, TR.r03_c, CV.r08_e],
+     'MRO-resolved def-use of the delimiters of named environments, write-through rules for the node setters, the '
+     'slice type of argument lists, the live-name match predicate and the lossless-serialiser rule.',
+     'R14.a \\begin/\\end of a named environment are computed from its current name and the serialiser reads them '
+     'that way; R14.b the name/args/string/contents setters write through to the expression; R18.d slices of an '
+     'argument list are argument lists (so they can be assigned back); R03.c search compares with the live name; '
+     'R08.e serialisers print every field.',
+     'that nothing else changes; re-parse equivalence.')
+
+prop('C03',
+     [TR.r03_a, TR.r03_b, TR.r03_c, TR.r04_a, TR.r04_b],
+     'Class-lattice evaluation of the view predicates and def-use rules on the traversal and search methods.',
+     'R03.a descendants is the closure of contents over children; R03.b find/count/attribute access delegate to '
+     'find_all with the query passed through, find_all filters the descendant enumeration by the match predicate; '
+     'R03.c the predicate reads the live name / text; R04.a children covers every container class; R04.b the complete '
+     'content list covers argument groups and the body.',
+     'exactness of result lists; match semantics of full-expression queries beyond the comparison performed.')
+
+prop('C04',
+     [TR.r04_a, TR.r04_b, TR.r04_c, TR.r04_d, TR.r03_a],
+     'Class-lattice evaluation of the view predicates and def-use rules on the node views.',
+     'R04.a contents drops only whitespace-only text, children admits exactly the non-text expression classes, no '
+     'view reorders; R04.b both containers are enumerated; R04.c every wrapper has its parent set before it is '
+     'yielded; R04.d iteration and indexing follow contents; R03.a descendants is the closure of contents.',
+     'that the root content list concatenates to the whole document (C01/C08); value-level equalities between views.')
+
+prop('C05',
+     [TR.r05_a, TR.r05_b, TR.r05_c],
+     'Search-primitive classification and def-use rules on the edit methods: which primitive locates the target, '
+     'which index the replacement uses, where the items of a multi-item insertion go.',
+     'R05.a the target is located by identity (expressions compare equal by text, so an equality search edits an '
+     'identical twin); R05.b replace inserts at the index returned by the removal on the same container; R05.c several '
+     'inserted items keep their order.',
+     'the splice equation itself (the resulting text equals the original with the span substituted).')
+
+prop('C15',
+     [TR.r05_a, TR.r05_c, TR.r15_a, TR.r15_b, TR.r15_c, TR.r15_d],
+     'Effect (frame) analysis of the mutators, a no-memoisation rule on the views, a kind-flow analysis of what can '
+     'enter a content list through the public mutators, and totality of the text view over those kinds.',
+     'R05.a/c targeted look-up by identity and ordered multi-insert; R15.a a mutator writes only its receiver\'s '
+     'content list and the parent of inserted material, constructors copy their lists; R15.b no view caches; R15.c '
+     'node wrappers and plain strings given as new material are stored as expressions; R15.d the text view admits '
+     'every text kind contents can yield.',
+     'equivalence with a reference document model over edit histories.')
+
+prop('C17',
+     [ISO.r17_a, ISO.r17_b, ISO.r17_c, ISO.r17_d, T.r17_e],
+     'Who-may-write rules over module-level objects, class attributes and default-argument objects; classification '
+     'of every iteration over a constant set (folded by the analyser) as order-insensitive or first-match, with a '
+     'prefix-freeness check of the folded elements; def-use of the entry points\' return values; provenance of tokens '
+     'that receive attribute stores in the tokenizer.',
+     'R17.a no run-time write to shared state (the import-time rule registry is recognised); R17.b mutable defaults '
+     'are only read; R17.c no first-match loop over a set whose elements can compete (hash-seed dependence); R17.d '
+     'fresh root/buffers/node per call and non-string input flattened first; R17.e the shared empty token is never '
+     'written.',
+     'equality of results across input forms (chunks, files) beyond the flattening step.')
+
+prop('C18',
+     [AR.r18_a, AR.r18_b, AR.r18_c, AR.r18_d, AR.r18_e],
+     'Path-wise effect/typestate analysis of the TexArgs mutators (list proper vs. shadow sequence), signature '
+     'comparison with list, and def-use of the serialisers.',
+     'R18.a every named list operation is overridden and keeps the two sequences paired; R18.b the signatures accept '
+     'what list accepts; R18.c strings are coerced before anything is written and nothing can fail after the list was '
+     'written; R18.d slices are argument lists; R18.e serialisation is the concatenation in list order and is what the '
+     'owner prints.',
+     'index arithmetic and behaviour with duplicate groups (value-level).')
